@@ -92,6 +92,7 @@ func C04(p *load.Prog, r *report.Report) {
 		r.Undecided("C04.model", "layout", "", err.Error())
 		return
 	}
+	m.stateGuard(r, "C04", true, false)
 	// the round trip needs the decoder to accept every canonical encoding and to reconstruct the encoded point; what
 	// it does with other inputs is C03's business only
 	inherit(p, r, "C04", "C03", C03, "C03.reject", "C03.state", "C03.model", "C03.anchor", "C03.decode")
